@@ -12,6 +12,7 @@ FILES = {
     "twins": "polish Polish\nice-cream\tx-ray\nété 4x\n",
     "layout": "one two  three\n\n four\r\nfive\n\n",
     "uncap": "4x\n7up\nUSA\n",
+    "twinonly": "polish\nalpha\nPolish\nbeta\n",
     "empty": "",
 }
 
@@ -136,6 +137,11 @@ def run(ctx):
     for f in list(FILES) + ["missing"]:
         add("words", [("file", f), ("capitalize", "random"), ("separator", "none")])
         add("words", [("file", f), ("entropy", None), ("capitalize", "one")])
+    # the same command line in fresh processes (map iteration order differs per process): the answer must not
+    for rep in range(10 if quick else 40):
+        for c in ("one", "random"):
+            seen.discard(("words", "--file=" + finfo["twinonly"]["path"], "--capitalize=" + c, "--entropy", "--size=3"))
+            add("words", [("file", "twinonly"), ("capitalize", c), ("entropy", None), ("size", "3")])
     while len(cases) < n:
         g = gen_args(rng)
         if isinstance(g[0], list):
